@@ -861,6 +861,11 @@ func runGuardedBy(prog *ssa.Program, solver *Solver, skip func(*ssa.Function) bo
 	}
 	// roots
 	rootSet := map[*ssa.Function]bool{}
+	type unexpMethod struct {
+		recv types.Type
+		fn   *ssa.Function
+	}
+	var unexportedMethods []unexpMethod
 	var all []*ssa.Function
 	var collect func(fn *ssa.Function)
 	collect = func(fn *ssa.Function) {
@@ -894,8 +899,42 @@ func runGuardedBy(prog *ssa.Program, solver *Solver, skip func(*ssa.Function) bo
 						if f.Object() != nil && f.Object().Exported() && m.Object().Exported() {
 							rootSet[f] = true
 						}
+						if f.Object() != nil && !m.Object().Exported() {
+							unexportedMethods = append(unexportedMethods, unexpMethod{t, f})
+						}
 					}
 				}
+			}
+		}
+	}
+	// methods of unexported types that are reached through an interface (dynamic dispatch is not
+	// followed by the inliner): a method is a root when some interface-method call in the module can
+	// land on it (e.g. the sent-chunk storage behind the sentStorage interface)
+	type invokeSite struct {
+		iface *types.Interface
+		name  string
+	}
+	invoked := map[string]invokeSite{}
+	for _, fn := range all {
+		for _, blk := range fn.Blocks {
+			for _, in := range blk.Instrs {
+				ci, ok := in.(ssa.CallInstruction)
+				if !ok || !ci.Common().IsInvoke() {
+					continue
+				}
+				c := ci.Common()
+				it, ok := c.Value.Type().Underlying().(*types.Interface)
+				if !ok {
+					continue
+				}
+				invoked[c.Value.Type().String()+"."+c.Method.Name()] = invokeSite{it, c.Method.Name()}
+			}
+		}
+	}
+	for _, um := range unexportedMethods {
+		for _, site := range invoked {
+			if um.fn.Name() == site.name && types.Implements(um.recv, site.iface) {
+				rootSet[um.fn] = true
 			}
 		}
 	}
